@@ -507,6 +507,8 @@ func init() {
 			{Entry: "VerifC17Set", Params: map[string]int{"N": 2, "L": 1}, Covers: []string{"C17.set.end", "C17.set.union", "C17.set.difference"}, DiffRuns: 40},
 			{Entry: "VerifKFFromMapSingleton"}, {Entry: "VerifKFMapTxnReuse"},
 			{Entry: "VerifC17Break", Covers: []string{"C17.break.end"}, DiffRuns: 10},
+			// 18-key pre-state ("p" + 17 x "p?"): deletes that shrink a node48 carrying a value
+			{Entry: "VerifC17Map", Params: map[string]int{"N": 1, "L": 2, "OPS": 2, "BIGPRE": 17}, Covers: []string{"C17.map.end"}, DiffRuns: 10},
 		},
 		Thorough: []HarnessRun{
 			{Entry: "VerifC17Break", Covers: []string{"C17.break.end"}, DiffRuns: 10},
@@ -689,13 +691,13 @@ func init() {
 	c06 := func(n, l int) HarnessRun {
 		return HarnessRun{Entry: "VerifC06Watch", Params: map[string]int{"N": n, "L": l}, Covers: []string{"C06.committed", "C06.aborted", "C06.changed-and-closed", "C06.end"}, NoNative: true}
 	}
-	c06p := func(n, l int) HarnessRun {
-		return HarnessRun{Entry: "VerifC06Watch", Params: map[string]int{"N": n, "L": l, "PRESET": 1}, Covers: []string{"C06.committed", "C06.aborted", "C06.changed-and-closed", "C06.end"}, NoNative: true}
+	c06ps := func(preset, n, l int) HarnessRun {
+		return HarnessRun{Entry: "VerifC06Watch", Params: map[string]int{"N": n, "L": l, "PRESET": preset}, Covers: []string{"C06.committed", "C06.aborted", "C06.changed-and-closed", "C06.end"}, NoNative: true}
 	}
 	reg(&CheckSpec{
 		ID: "C06", PkgDir: "statedb",
-		Quick:    []HarnessRun{c06(2, 1), c02(1), c06p(1, 2)},
-		Thorough: []HarnessRun{c06(3, 1), c06(2, 2), c02(2), c06p(2, 2)},
+		Quick:    []HarnessRun{c06(2, 1), c02(1), c06ps(1, 1, 2), c06ps(2, 1, 2)},
+		Thorough: []HarnessRun{c06(3, 1), c06(2, 2), c02(2), c06ps(1, 2, 2), c06ps(2, 2, 2)},
 		Outside: []string{"outside: channels obtained from write-transaction queries; a waiting goroutine is modelled by the sync observer (every point at which it could wake up relative to the committer's synchronisation operations); pre-state of two objects; more than N later writes; nothing is asserted about channels that close although the result did not change (allowed)"},
 	})
 }
